@@ -856,6 +856,46 @@ def _init(run, world, mod, c):
                    "constructor", where(mod, f2), trivial=True)
 
 
+def _check_cache_coherence(run, world, mod, c, cache):
+    """Every method that stores the frame's value also resets the cache
+    attribute (on every path that stores), and does not call pack in
+    between."""
+    from ..cfg import CFG, forward_worlds, explicit_raise_only
+    fam = [k for k in world.class_order if c in k.mro]
+    for k in fam:
+        for name, (kind, fn) in sorted(k.methods.items()):
+            if not any(isinstance(n, ast.Attribute) and isinstance(
+                    n.ctx, ast.Store) and n.attr == "_data" and unparse(
+                        n.value) == "self" for n in ast.walk(fn)):
+                continue
+            cfg = CFG(fn, may_raise=explicit_raise_only,
+                      name="%s.%s" % (k.qname, name))
+
+            def tr(node, st):
+                a = node.ast
+                if node.kind == "stmt" and isinstance(
+                        a, (ast.Assign, ast.AugAssign)):
+                    tg = a.targets if isinstance(a, ast.Assign) else [
+                        a.target]
+                    for t in tg:
+                        if unparse(t) == "self._data":
+                            st = st | {"stored"}
+                        if unparse(t) == "self." + cache and isinstance(
+                                a, ast.Assign) and isinstance(
+                                    a.value, ast.Constant) and \
+                                a.value.value is None:
+                            st = st | {"reset"}
+                return st
+            W = forward_worlds(cfg, tr, lambda s_, l_, d_, st: st)
+            bad = W.worlds_with(cfg.exit, lambda w: "stored" in w and
+                                "reset" not in w)
+            run.ob("R-FRAME-VIEW", "%s.%s#invalidates-%s" % (
+                k.qname, name, cache), not bad,
+                "%s stores the frame's value without resetting self.%s: "
+                "pack (and everything built on it) keeps returning the bytes "
+                "of the old value" % (name, cache), where(mod, fn))
+
+
 def _truth_q(q):
     """Truth of a width expression a*q + b over q >= 0 (q >= 1 for b == 0
     and a > 0 is not needed here: remainders and comparisons are
@@ -952,6 +992,21 @@ def _add_contains_views(run, world, mod, c):
     def check_pack(name, e, f2, fixed):
         tb = _to_bytes_call(e)
         if tb is None:
+            # a view that reads state other than the value and the width
+            # (a cache) is not a function of the frame's current bits
+            other = sorted({n_.attr for n_ in ast.walk(e) if isinstance(
+                n_, ast.Attribute) and isinstance(n_.value, ast.Name) and
+                n_.value.id == "self" and n_.attr not in (
+                    "_data", "_bits", "pack", "pack_len", "as_integer",
+                    "as_byte_sequence")})
+            if other:
+                run.ob("R-FRAME-VIEW", "%s.Frame.%s" % (FR, name), False,
+                       "%s returns `%s`, which reads self.%s: a view must be "
+                       "computed from _data and _bits alone, or a later "
+                       "write to the frame is not seen" % (
+                           name, unparse(e), ", self.".join(other)),
+                       where(mod, f2))
+                return
             raise AnalysisError("Frame.%s: `%s` is not an int.to_bytes call"
                                 % (name, unparse(e)))
         recv, n, order = tb
@@ -991,6 +1046,32 @@ def _add_contains_views(run, world, mod, c):
     else:
         names = ("len(self)", "self._bits")
         okv, okn, msg = True, True, ""
+        # a memoised pack: one path returns a cache attribute that another
+        # path fills with the encoding - then every writer of the value must
+        # invalidate it
+        cache = None
+        for p_ in pps:
+            if _to_bytes_call(p_.expr) is None and isinstance(
+                    p_.expr, ast.Attribute) and unparse(
+                        p_.expr.value) == "self":
+                cache = p_.expr.attr
+        if cache is not None:
+            filled = any(t_ == "self." + cache and _to_bytes_call(v_)
+                         is not None for p_ in pps
+                         for (t_, v_) in [e_ for e_ in p_.effects
+                                          if len(e_) == 2])
+            if not filled:
+                cache = None
+        if cache is not None:
+            _check_cache_coherence(run, world, mod, c, cache)
+            # the cache is private state of the view, kept coherent by the
+            # rule above: storing it is not a write to the frame
+            run.c05_caches = set(getattr(run, "c05_caches", ())) | {
+                "self." + cache}
+            pps = [p_ for p_ in pps if _to_bytes_call(p_.expr) is not None]
+            for p_ in pps:
+                p_.conds = [(t_, b_) for (t_, b_) in p_.conds
+                            if ("self." + cache) not in unparse(t_, 300)]
         for p_ in pps:
             tb = _to_bytes_call(p_.expr)
             if tb is None:
@@ -1173,6 +1254,7 @@ def _add_contains_views(run, world, mod, c):
                  "__contains__", "__add__", "__str__", "_readslice"]:
         f2 = c.methods[name][1]
         w = [unparse(n) for n in ast.walk(f2) if isinstance(
-            n, ast.Attribute) and isinstance(n.ctx, (ast.Store, ast.Del))]
+            n, ast.Attribute) and isinstance(n.ctx, (ast.Store, ast.Del))
+            and unparse(n) not in getattr(run, "c05_caches", ())]
         run.ob("R-FRAME-VIEW", "%s.Frame.%s#read-only" % (FR, name), not w,
                "%s modifies %s" % (name, w), where(mod, f2), trivial=True)
